@@ -55,10 +55,6 @@ def eager_cat_homogeneous(name, part_name, *parts):
         white_vec, prec_sqrt = align_gaussian(inputs, gaussian)
         white_vecs.append(ops.expand(white_vec, shape + (-1,)))
         prec_sqrts.append(ops.expand(prec_sqrt, shape + (-1, -1)))
-    if part_name != name:
-        del inputs[part_name]
-        del int_inputs[part_name]
-
     # Pad to ensure ranks agree.
     max_rank = max(w.shape[-1] for w in white_vecs)
     for i, (white_vec, prec_sqrt) in enumerate(zip(white_vecs, prec_sqrts)):
@@ -75,8 +71,14 @@ def eager_cat_homogeneous(name, part_name, *parts):
     dim = 0
     white_vec = ops.cat(white_vecs, dim)
     prec_sqrt = ops.cat(prec_sqrts, dim)
-    inputs[name] = Bint[white_vec.shape[dim]]
-    int_inputs[name] = inputs[name]
+    # The concatenated input replaces part_name at the same (leading) position.
+    domain = Bint[white_vec.shape[dim]]
+    inputs = OrderedDict(
+        (name, domain) if k == part_name else (k, v) for k, v in inputs.items()
+    )
+    int_inputs = OrderedDict(
+        (name, domain) if k == part_name else (k, v) for k, v in int_inputs.items()
+    )
     result = Gaussian(white_vec, prec_sqrt, inputs)
     if any(d is not None for d in discretes):
         for i, d in enumerate(discretes):
